@@ -9,8 +9,10 @@
    The last part (C04_second_run_noop, C04_getargs_second_run_noop; Proofs/RerunP.v, RerunGP.v) is about the WHOLE repeated run:
    every decision of the 2nd, 3rd, ... run, and the DB they leave.
    The theorems C04_calcdep_* (end of the file; Model/CalcDep.v, Proofs/CalcDepP.v) are about whole runs over tasks that get
-   dependencies from the values of other tasks (calc_dep), read when the task is dispatched. *)
-From DoitV Require Import Base Status History Getargs StatusP HistoryP GetargsP RerunP RerunGP CalcDep CalcDepP.
+   dependencies from the values of other tasks (calc_dep), read when the task is dispatched.
+   The theorems C04_group_* (very end; Model/GroupRes.v, Proofs/GroupResP.v) are about result_dep / getargs on a GROUP task: the compared
+   result of a group is the dict of its SUB-TASKS' results. *)
+From DoitV Require Import Base Status History Getargs StatusP HistoryP GetargsP RerunP RerunGP CalcDep CalcDepP GroupRes GroupResP.
 Open Scope Z_scope.
 
 (* converse of C03_uptodate_sound: in the state reached by ANY history, if no uptodate item is
@@ -568,3 +570,68 @@ Example C04_calcdep_lost_values_would_rerun :
   g_status (check md5 current (set_def md5 size_of current s1 0%N (merged_with (ca_vals a1) e_ccons)) 0%N) = UpToDate /\
   g_status (check md5 current (set_def md5 size_of current s1 0%N (merged_with (fun _ => []) e_ccons)) 0%N) = Run.
 Proof. vm_compute. repeat split. Qed.
+
+(* ---- result_dep on a GROUP task (also the implicit one of `getargs` from a group): Model/GroupRes.v ----
+   [is_sub g s] is the oracle `s.startswith(g + ":")`; tdeps / tdeps' = the task_dep list of the group when the consumer saved the
+   result / when it is checked again (sub-tasks in yield order, plus whatever else the group depends on: a group-level `task_dep`,
+   implicit task_dep through targets or a group-level result_dep); d / d' = the DB at those two moments.
+
+   Exact characterisation of the second look ("it will check that the result of all subtasks did not change. And also the existing
+   sub-tasks are the same", doc/uptodate.rst): the item is true IFF the sub-tasks among the task_dep are the same and the record of each
+   one holds the result it held.  Nothing else is read: not the records of the other task_dep of the group, not the order. *)
+Theorem C04_group_item_iff : forall (is_sub : name -> name -> bool) (d d' : db) (g : name) (tdeps tdeps' : list name),
+  item_verdict is_sub (item_saver is_sub d true g tdeps) d' true g tdeps' = true <->
+  (forall s, is_sub g s = true -> (In s tdeps <-> In s tdeps') /\ (In s tdeps -> get_result d' s = get_result d s)).
+Proof. exact group_item_iff. Qed.
+Print Assumptions C04_group_item_iff.
+
+(* hence: the consumer's second look does not depend on the results of the task_dep of the group that are not its sub-tasks, nor on
+   which such task_dep the group has *)
+Theorem C04_group_second_look : forall (is_sub : name -> name -> bool) (d d' : db) (g : name) (tdeps tdeps' : list name),
+  (forall s, is_sub g s = true -> (In s tdeps <-> In s tdeps')) ->
+  (forall s, In s tdeps -> is_sub g s = true -> get_result d' s = get_result d s) ->
+  item_verdict is_sub (item_saver is_sub d true g tdeps) d' true g tdeps' = true.
+Proof. exact group_second_look. Qed.
+Print Assumptions C04_group_second_look.
+
+(* over histories (History.v): after ANY sequence of file operations, changes of definitions / of the checker, and get_status /
+   recorded success / failure / forget of tasks that are NOT sub-tasks of g (the non-sub-task dependency X of the group re-executes
+   with another result: SetDef X, Write, Check X, SaveOk X), the item of a consumer that saved the group's result in state s is true *)
+Theorem C04_group_item_frame : forall (is_sub : name -> name -> bool) (md5 : N -> N) (size_of : N -> Z) (g : name)
+    (tdeps tdeps' : list name) (ops : list op) (s : state),
+  Forall (off_group is_sub g) ops ->
+  (forall x, is_sub g x = true -> (In x tdeps <-> In x tdeps')) ->
+  item_verdict is_sub (item_saver is_sub (s_db s) true g tdeps) (s_db (run_from md5 size_of current s ops)) true g tdeps' = true.
+Proof. intros is_sub md5 size_of. exact (group_item_frame is_sub md5 size_of current). Qed.
+Print Assumptions C04_group_item_frame.
+
+(* non-vacuity, and what the theorems exclude.  Tasks: 5 = the group, 6 / 7 = its sub-tasks, 1 = a plain task the group depends on
+   (group-level task_dep).  The consumer saved the group's result when 1 / 6 / 7 held the results 11 / 12 / 13; then task 1 re-executes
+   (another file content, another result: 14): the item is still true; when sub-task 7 re-executes with another result it is false; when
+   sub-task 7 leaves the group it is false.  If the loop of _result_group did not skip the other task_dep (seeded change C04e: the
+   `startswith(prefix)` test dropped = an oracle is_sub that answers true for task 1 as well), the first answer would be false: the
+   consumer would be re-executed although no sub-task changed. *)
+Definition e_sub : name -> name -> bool := fun g s => N.eqb g 5 && (N.eqb s 6 || N.eqb s 7).
+Definition e_sub_all : name -> name -> bool := fun g s => N.eqb g 5.
+Definition e_xdef (r : N) : tdef := {| file_dep := [0%N]; targets := []; uptodate := []; act_values := []; act_result := Some r |}.
+Definition e_sdef (f r : N) : tdef := {| file_dep := [f]; targets := []; uptodate := []; act_values := []; act_result := Some r |}.
+Definition e_g0 : list op :=
+  [Write 0 0; Write 1 1; Write 2 2; SetDef 1 (e_xdef 11); SetDef 6 (e_sdef 1 12); SetDef 7 (e_sdef 2 13);
+   Check 1; SaveOk 1; Check 6; SaveOk 6; Check 7; SaveOk 7]%N.
+Definition e_x_again : list op := [Write 0 3; SetDef 1 (e_xdef 14); Check 1; SaveOk 1]%N.
+Definition e_sub_again : list op := [Write 2 4; SetDef 7 (e_sdef 2 15); Check 7; SaveOk 7]%N.
+Example C04_group_nonvacuous :
+  let md5 := fun c : N => c in let size_of := fun _ : N => 4 in
+  let s0 := run md5 size_of current e_g0 in
+  let tdeps := [1; 6; 7]%N in
+  let look := fun is_sub ops tdeps' => item_verdict is_sub (item_saver is_sub (s_db s0) true 5%N tdeps)
+                                                  (s_db (run_from md5 size_of current s0 ops)) true 5%N tdeps' in
+  Forall (off_group e_sub 5%N) e_x_again /\
+  item_saver e_sub (s_db s0) true 5%N tdeps = Some (RGroup [(6%N, Some 12%N); (7%N, Some 13%N)]) /\
+  get_result (s_db (run_from md5 size_of current s0 e_x_again)) 1%N = Some 14%N /\
+  look e_sub e_x_again tdeps = true /\
+  look e_sub e_x_again [6; 7]%N = true /\          (* the group no longer depends on task 1: the sub-tasks are the same *)
+  look e_sub e_sub_again tdeps = false /\
+  look e_sub [] [1; 6]%N = false /\
+  look e_sub_all e_x_again tdeps = false.
+Proof. vm_compute. repeat split; repeat constructor. Qed.
